@@ -21,9 +21,9 @@ const ANEMO: &[u8; 5] = b"anemo";
 pub(crate) fn network_message_frame_codec(config: &Config) -> LengthDelimitedCodec {
     let mut builder = LengthDelimitedCodec::builder();
 
-    if let Some(max_frame_size) = config.max_frame_size() {
-        builder.max_frame_length(max_frame_size);
-    }
+    // `max_frame_size == None` is documented as "no limit"; without an explicit value the
+    // tokio-util default of 8 MiB would silently apply.
+    builder.max_frame_length(config.max_frame_size().unwrap_or(usize::MAX));
 
     builder.length_field_length(4).big_endian().new_codec()
 }
